@@ -1525,6 +1525,8 @@ def main():
         done.add(n); order.append(n)
     for n in names: visit(n)
     refb = _ref_blocks(os.path.join(out_path, 'Model.lean'))
+    inlined = inline_new_helpers(emitted, refb)
+    if inlined: sys.stderr.write('mir2lean: inlined helpers that are new w.r.t. the reference: ' + ', '.join(sorted(inlined)) + '\n')
     for n in order: out.append(orient_like_reference(emitted[n][0], refb)); out.append('')
     out.append('end Gen')
     write_if_changed(os.path.join(out_path, 'Model.lean'), '\n'.join(out) + '\n')
@@ -1592,6 +1594,73 @@ def orient_like_reference(txt, ref):
         if r is not None and r != b.strip('\n') and _canon(r) == _canon(b): out.append(r)
         else: out.append(b)
     return '\n\n'.join(out)
+
+# ----------------------------------------------------------------------------- inlining of helpers that the reference does not have
+# A refactor that moves an expression into a new private helper leaves every value unchanged, but the proofs unfold the callers
+# by name and would stop at the unknown helper.  A function that does not exist in the reference Gen file, and that is a plain
+# (non-monadic, non-recursive, loop-free, dictionary-free) definition, is therefore inlined at its call sites as
+# `(let p := arg; body)` with parameters renamed apart; its own definition stays in the file (the correspondence run calls it).
+
+def _split_args(text, start):
+    """text[start] is just after '(NAME '; returns (list of argument strings, index after the closing paren) or None"""
+    args, i, n = [], start, len(text)
+    while i < n:
+        while i < n and text[i] in ' \n': i += 1
+        if i >= n: return None
+        if text[i] == ')': return args, i + 1
+        if text[i] == '(':
+            depth, j = 0, i
+            while j < n:
+                if text[j] == '(': depth += 1
+                elif text[j] == ')':
+                    depth -= 1
+                    if depth == 0: break
+                j += 1
+            if j >= n: return None
+            args.append(text[i:j + 1]); i = j + 1
+        else:
+            j = i
+            while j < n and text[j] not in ' \n()': j += 1
+            args.append(text[i:j]); i = j
+    return None
+
+_inl_counter = [0]
+
+def inline_new_helpers(emitted, ref):
+    """emitted: name -> (text, calls).  Returns the set of helper names that were inlined somewhere."""
+    done = set()
+    for name, (txt, calls) in list(emitted.items()):
+        if name in ref or '\n\n' in txt.strip('\n'): continue          # known to the reference, or has loop definitions
+        m = re.match(r'^def (\S+) (\{α : Type\} \[Flt α\] )?((?:\([^()]*? : [^()]*(?:\([^()]*\)[^()]*)*\) ?)*): (.+?) :=\n(.*)$', txt.strip('\n'), flags=re.S)
+        if not m or m.group(1) != name: continue
+        rett, body = m.group(4).strip(), m.group(5)
+        if rett.startswith('Res ') or 'fuel' in m.group(3) or name in calls: continue
+        params = re.findall(r'\((\w+) : ((?:[^()]|\([^()]*\))*)\)', m.group(3))
+        if not params: continue
+        lines = [l.strip() for l in body.split('\n') if l.strip()]
+        if any(l.startswith('match ') or l.startswith('|') or '←' in l for l in lines): continue
+        flat = ' '.join((l + ';') if l.startswith('let ') else l for l in lines)
+        used = False
+        for caller, (ctxt, ccalls) in list(emitted.items()):
+            if caller == name or ('(' + name + ' ') not in ctxt: continue
+            out, i = [], 0
+            while True:
+                k = ctxt.find('(' + name + ' ', i)
+                if k < 0: out.append(ctxt[i:]); break
+                r = _split_args(ctxt, k + len(name) + 2)
+                if r is None or len(r[0]) != len(params): out.append(ctxt[i:k + 1]); i = k + 1; continue
+                args, end = r
+                _inl_counter[0] += 1
+                b, binds = flat, []
+                for (pn, pt), a in zip(params, args):
+                    fresh = f'inl{_inl_counter[0]}_{pn}'
+                    b = re.sub(r'(?<![\w.])' + re.escape(pn) + r'(?![\w])', fresh, b)
+                    binds.append(f'let {fresh} : {pt} := {a};')
+                out.append(ctxt[i:k] + '(' + ' '.join(binds) + ' ' + b + ')')
+                i = end; used = True
+            emitted[caller] = (''.join(out), ccalls)
+        if used: done.add(name)
+    return done
 
 def write_if_changed(path, new):
     old = open(path).read() if os.path.exists(path) else None
